@@ -18,7 +18,7 @@ fn sample_bits<const D: usize>(g: &SampleGenerator<D>, pt: &[f64], ne: usize, me
     let ed: Vec<(Option<f64>, Vector<f64, D>)> = (0..ne)
         .map(|i| (if i % 2 == 0 { Some(0.5) } else { None }, Vector::from_array([0.25 * (i as f64 + 1.0); D])))
         .collect();
-    let st = TropicalSamplingSettings { matrix_stability_test: Some(1e-6), print_debug_info: false, return_metadata: meta };
+    let st = TropicalSamplingSettings { matrix_stability_test: Some(1e-6), print_debug_info: false, return_metadata: meta, ..Default::default() };
     match g.generate_sample_from_x_space_point(pt, ed, &st) {
         Ok(s) => {
             let mut v = vec![s.u.to_bits(), s.v.to_bits(), s.jacobian.to_bits(), s.u_trop.to_bits(), s.v_trop.to_bits()];
